@@ -86,7 +86,9 @@ static std::vector<Instance> instances(const std::string &tier) {
 	v.push_back(sched_instance<SH>("simple-2x2-all", full, 2, 2));     // 27 380 schedules
 	v.push_back(sched_instance<TH>("ticket-3x1-b" + std::to_string(th ? 3 : 2), th ? b3 : b2, 3, 1));
 	v.push_back(sched_instance<SH>("simple-3x1-b" + std::to_string(th ? 3 : 2), th ? b3 : b2, 3, 1));
-	if(th) { v.push_back(sched_instance<TH>("ticket-4x1-b2", b2, 4, 1)); v.push_back(sched_instance<SH>("simple-4x1-b2", b2, 4, 1)); v.push_back(sched_instance<TH>("ticket-3x2-b2", b2, 3, 2)); }
+	SchedOptions b1; b1.bound = 1;
+	// (four threads on the ticket lock at bound 2 take > 25 min under ThreadSanitizer: the TSan build explores bound 1, the ASan + vector-clock build bound 2)
+	if(th) { if(VERIF_TSAN) v.push_back(sched_instance<TH>("ticket-4x1-b1", b1, 4, 1)); else v.push_back(sched_instance<TH>("ticket-4x1-b2", b2, 4, 1)); v.push_back(sched_instance<SH>("simple-4x1-b2", b2, 4, 1)); v.push_back(sched_instance<TH>("ticket-3x2-b2", b2, 3, 2)); }
 	return v;
 }
 int main(int argc, char **argv) { return harness_main(argc, argv, instances); }
